@@ -50,40 +50,40 @@ type rpcState struct {
 	ctx      context.Context
 	cancel   context.CancelFunc
 
-	served      bool
-	ServeSeq    uint64
-	ServePanic  string
-	ServePanicStack string
-	Backend     []*BackendObs
-	Panics      []string
-	Outcome     *Outcome
-	Rejected    string // request could not be built (e.g. http.ReadRequest refused it)
+	served               bool
+	ServeSeq             uint64
+	ServePanic           string
+	ServePanicStack      string
+	Backend              []*BackendObs
+	Panics               []string
+	Outcome              *Outcome
+	Rejected             string // request could not be built (e.g. http.ReadRequest refused it)
 	CtxCancelledAtReturn []bool
-	ClientRounds int
-	ClientStuck  string
-	RespFrameSeq []uint64 // seq at which response frame k became visible (ping-pong)
-	ReqSentSeq   []uint64 // seq at which request frame k was delivered
-	BodySent     int
-	BodyTotal    int
-	CutAt        int // offset at which the request body was cut (-1 none)
-	CutKind      string
-	orig         origRequest
-	cfg          *ConfigPlan
-	respEndLen   int      // payload length of the backend's end-of-stream / trailer frame (0: none)
-	respLen      int      // length of the body the backend rendered (for fault enumeration)
-	respBounds   []int    // end offset of every frame the backend rendered (data frames, then the end frame if it is in the body)
-	respPrefixes []int    // start offset of those frames
-	respComp     string   // compression the backend used
-	respPayloads [][]byte // wire payloads of the backend's data frames
+	ClientRounds         int
+	ClientStuck          string
+	RespFrameSeq         []uint64 // seq at which response frame k became visible (ping-pong)
+	ReqSentSeq           []uint64 // seq at which request frame k was delivered
+	BodySent             int
+	BodyTotal            int
+	CutAt                int // offset at which the request body was cut (-1 none)
+	CutKind              string
+	orig                 origRequest
+	cfg                  *ConfigPlan
+	respEndLen           int      // payload length of the backend's end-of-stream / trailer frame (0: none)
+	respLen              int      // length of the body the backend rendered (for fault enumeration)
+	respBounds           []int    // end offset of every frame the backend rendered (data frames, then the end frame if it is in the body)
+	respPrefixes         []int    // start offset of those frames
+	respComp             string   // compression the backend used
+	respPayloads         [][]byte // wire payloads of the backend's data frames
 }
 
 // origRequest is a snapshot of the request as the client sent it (the transcoder mutates the live one).
 type origRequest struct {
 	Method, Path, RawPath, RawQuery, Proto, Host, RequestURI string
-	ProtoMajor       int
-	Header           http.Header
-	ContentLength    int64
-	TransferEncoding []string
+	ProtoMajor                                               int
+	Header                                                   http.Header
+	ContentLength                                            int64
+	TransferEncoding                                         []string
 }
 
 type RunResult struct {
